@@ -424,6 +424,7 @@ RULES = [
 LEVEL_TEXT = ("Static field-flow and ordering rules on MIR: main builds the configuration as default -> merge_file -> merge_args -> run on one "
               "object; every store in merge_file/merge_args draws from exactly its counterpart field (alias table of 17 names), scalar settings are "
               "assigned only under 'source present', list-valued ones are only appended/inserted, every setting is covered by both merges and by the "
-              "inverse mapping; the netmask computation is proved panic-free by interval analysis for every prefix length.")
+              "inverse mapping; the netmask computation is proved panic-free by interval analysis for every prefix length."
+              " The clap builder chain generated for struct Args is compared with a reviewed multiplicity / comma-splitting table.")
 LEVEL_NOTE = "Decides C20.R1, R2 (incl. R3 overwrite/accumulate), R4. Not decided: clap/structopt and serde attribute behaviour (trusted), documented default values as values."
 TECHNIQUE = "field-sensitive def-use (flow matrix) over MIR, dominance ordering in main, interval abstract interpretation"
